@@ -43,6 +43,10 @@ pub struct Crafted {
 pub enum Invalid {
     /// bytes that are not UTF-8 (string codec) / a truncated record (bincode)
     ForCodec,
+    /// a valid message, compressed, with the last `cut` bytes of the compressed stream (its
+    /// trailer / checksum / end mark) missing: the decompressor has produced output by the time it
+    /// notices. Without compression configured this is the valid message itself.
+    CutCompressed { cut: usize },
 }
 
 #[derive(Clone, Copy, Debug, Serialize, Deserialize, PartialEq)]
@@ -77,10 +81,43 @@ fn encode_items(codec: CodecKind, msgs: &[(usize, u64)]) -> Vec<Bytes> {
         .collect()
 }
 
+fn fp_of<T: std::fmt::Debug>(x: &T) -> u64 {
+    let mut h = Hasher64::default();
+    h.bytes(format!("{x:?}").as_bytes());
+    h.finish()
+}
+
+/// Fingerprint of the value a subscriber must yield for an unbatched, uncorrupted single-message
+/// frame (also for one whose compressed form was cut short: if the subscriber yields a value for
+/// it at all, it is this one).
+fn expected_value(codec: CodecKind, c: &Crafted) -> Option<u64> {
+    if c.batched || !c.mutations.is_empty() || c.msgs.len() != 1 || matches!(c.invalid, Some(Invalid::ForCodec)) {
+        return None;
+    }
+    let (s, f) = c.msgs[0];
+    Some(match codec {
+        CodecKind::String => fp_of(&text_of(0, s, f)),
+        CodecKind::Bytes => fp_of(&bytes_of(0, s, f)),
+        CodecKind::Bincode => fp_of(&rec_of(0, s, f)),
+    })
+}
+
 /// The frame a well-behaved publisher would send for these messages, corrupted per the script.
 /// Returns (frame, known_invalid, all_valid) where known_invalid means the payload is certainly
 /// not decodable by the codec, all_valid that nothing was corrupted.
 fn craft(codec: CodecKind, comp: Option<CompKind>, c: &Crafted) -> (Frame, bool, bool) {
+    if let Some(Invalid::CutCompressed { cut }) = c.invalid {
+        let items = encode_items(codec, &c.msgs);
+        let mut body = items.first().cloned().unwrap_or_default();
+        let mut valid = true;
+        if let Some(k) = comp {
+            let full = make_comp(k, Level::Default).compress(body).unwrap();
+            let keep = full.len().saturating_sub(cut);
+            valid = keep == full.len();
+            body = full.slice(..keep);
+        }
+        return (Frame::Message(MessagePayload { headers: None, message: body }), false, valid);
+    }
     if let Some(Invalid::ForCodec) = c.invalid {
         let raw: Vec<u8> = match codec {
             CodecKind::String => vec![b'o', b'k', 0xff, 0xfe, 0xc0],
@@ -131,8 +168,10 @@ pub fn gen_script(rng: &mut Rng, c14_only: bool) -> HostileScript {
     let frames = (0..n)
         .map(|_| {
             if c14_only || rng.chance(1, 5) {
-                if rng.chance(1, 2) {
+                if rng.chance(1, 3) {
                     Crafted { msgs: vec![], batched: false, mutations: vec![], invalid: Some(Invalid::ForCodec) , repeat: 1 }
+                } else if rng.chance(1, 2) {
+                    Crafted { msgs: vec![(rng.usize(0, 60), rng.next())], batched: false, mutations: vec![], invalid: Some(Invalid::CutCompressed { cut: rng.usize(1, 4) }), repeat: 1 }
                 } else {
                     Crafted { msgs: vec![(rng.usize(0, 60), rng.next())], batched: false, mutations: vec![], invalid: None , repeat: 1 }
                 }
@@ -160,6 +199,10 @@ pub struct HostileReport {
     pub notes: Vec<String>,
     /// per unbatched frame: (expected_invalid, expected_valid)
     pub expectations: Vec<(bool, bool)>,
+    /// per yield: fingerprint of the yielded value (None for errors)
+    pub values: Vec<Option<u64>>,
+    /// per unbatched frame: fingerprint of the only value the subscriber may yield for it
+    pub expected_values: Vec<Option<u64>>,
 }
 
 /// A clean pub/sub round trip on a fresh topic: is the server still serving?
@@ -177,12 +220,13 @@ pub async fn probe_roundtrip(a: &selium::Client, ga: u32, b: &selium::Client, gb
     r.unwrap_or(false)
 }
 
-async fn consume<D, Item>(mut sub: selium::keep_alive::pubsub::KeepAlive<selium::pubsub::Subscriber<D, Item>>, group: u32, sentinel: impl Fn(&Item) -> bool) -> (Vec<String>, bool)
+async fn consume<D, Item>(mut sub: selium::keep_alive::pubsub::KeepAlive<selium::pubsub::Subscriber<D, Item>>, group: u32, sentinel: impl Fn(&Item) -> bool) -> (Vec<String>, bool, Vec<Option<u64>>)
 where
     D: selium::std::traits::codec::MessageDecoder<Item> + Send + Unpin,
-    Item: Send + Unpin,
+    Item: Send + Unpin + std::fmt::Debug,
 {
     let mut yields = vec![];
+    let mut values = vec![];
     let mut seen = false;
     loop {
         match tokio::time::timeout(Duration::from_secs(30), ACTOR.scope(group, sub.next())).await {
@@ -192,8 +236,12 @@ where
                     break;
                 }
                 yields.push("ok".to_string());
+                values.push(Some(fp_of(&x)));
             }
-            Ok(Some(Err(_))) => yields.push("err".to_string()),
+            Ok(Some(Err(_))) => {
+                yields.push("err".to_string());
+                values.push(None);
+            }
             Ok(None) => {
                 yields.push("end".into());
                 break;
@@ -207,7 +255,7 @@ where
             break;
         }
     }
-    (yields, seen)
+    (yields, seen, values)
 }
 
 const SENTINEL: &str = "__sentinel__";
@@ -258,6 +306,7 @@ async fn scenario(world: Rc<World>, sc: HostileScript) -> AResult<HostileReport>
                         let (frame, invalid, valid) = craft(sc.codec, sc.comp, c);
                         if !c.batched {
                             rep.expectations.push((invalid, valid));
+                            rep.expected_values.push(expected_value(sc.codec, c));
                         }
                         // repeated frames are fed without flushing in between, so that the consumer
                         // finds them all ready at once
@@ -267,8 +316,9 @@ async fn scenario(world: Rc<World>, sc: HostileScript) -> AResult<HostileReport>
                         stream.send(frame).await.map_err(|e| anyhow!("raw send: {e}"))?;
                     }
                     stream.send(sentinel_frame(sc.codec, sc.comp)).await.map_err(|e| anyhow!("raw send: {e}"))?;
-                    let (y, seen) = consume(sub, g1, $is_sentinel).await;
+                    let (y, seen, vals) = consume(sub, g1, $is_sentinel).await;
                     rep.yields = y;
+                    rep.values = vals;
                     rep.sentinel_seen = seen;
                 }};
             }
@@ -427,6 +477,17 @@ pub fn execute(prop: &str, sc: &HostileScript, opts: &ExecOpts) -> Outcome {
                             if *valid && y == "err" {
                                 out.violate(prop, "valid-payload-rejected", &format!("{:?}", sc.codec).to_lowercase(), format!("frame {i} carried a valid {:?} payload, the subscriber yielded an error", sc.codec));
                             }
+                        }
+                        for (i, (want, y)) in rep.expected_values.iter().zip(rep.yields.iter()).enumerate() {
+                            if let (Some(w), "ok", Some(Some(got))) = (want, y.as_str(), rep.values.get(i)) {
+                                if got != w {
+                                    let what = if matches!(sc.frames[i].invalid, Some(Invalid::CutCompressed { .. })) && sc.comp.is_some() { "a valid message whose compressed form was cut short" } else { "a valid message" };
+                                    out.violate(prop, "wrong-value-yielded", &format!("{:?}-{:?}", sc.codec, sc.comp).to_lowercase(), format!("frame {i} carried {what} ({:?} codec, {:?}); the subscriber yielded a value that is not the message that was sent (frames before it: {:?})", sc.codec, sc.comp, sc.frames[..i].iter().map(|c| c.invalid).collect::<Vec<_>>()));
+                                }
+                            }
+                        }
+                        if sc.frames.iter().any(|c| matches!(c.invalid, Some(Invalid::CutCompressed { .. }))) && sc.comp.is_some() {
+                            out.fault("compressed_payload_cut_short");
                         }
                         out.probe("codec_clause_aligned_runs");
                     }
